@@ -1,16 +1,48 @@
 #!/usr/bin/env python3
-"""Prints the quick-tier volume column of DESIGN.md section 0.3b from the committed evidence files."""
-import json, os, sys
+"""Rewrites the table of DESIGN.md section 0.3b from the committed evidence files (quick tier)."""
+import json, os, re
 root = os.path.dirname(os.path.dirname(os.path.abspath(__file__)))
+DESC = {
+ "C01": ("MC_Core `Inv_All` + MC_CoreObj (incl. `clone`) + MC_Builder c13, c05b, c05g", "replay of unaltered-token cases over lengths 0..192, boundaries, 64 KiB (JSON at the parser layers above 1 000 bytes too); CoreObjTrace; BuilderTrace (`FootBound` / `AssertBound`, matching parser + `PasetoParser::default()` read-back)"),
+ "C02": ("as C01 for the public protocols", "as C01; RSA fixtures, Ed25519 / P-384 pairs from seeds, keys built through every constructor route"),
+ "C03": ("MC_Core + simulation (<= 4 edits) + MC_B64", "replay: every bit / character / truncation length / compensating change, 3 layers, counting validator, priming with the authentic token, rejections repeated"),
+ "C04": ("MC_Core + MC_Parser c04 (two parses, two keys)", "replay with 256 seed neighbours, zero / ones / random keys, every single-bit neighbour of the Ed25519 / P-384 / RSA public key bytes, RSA key in non-encodings; primed and repeated; ParserTrace"),
+ "C05": ("MC_Core (footer matrix + foot-* edits) + CoreObj + MC_Builder c13 / c05b / c05g + MC_Parser c05 / c05p (`Inv_FootAssert`)", "replay over 29 footer pairs (prefix / extension / case / whitespace / '-' '_' / nested JSON / 255-256 / 65535-65536 bytes) incl. the accepting side; 2 048 wrong footers per protocol; independent base64url oracle on minted tokens; traces"),
+ "C06": ("MC_Core (assertion matrix, `Hidden`) + MC_Pae + CoreObj + builder / parser families as C05", "replay; 2 048 wrong assertions per protocol; absence scan of the assertion (all base64 alignments), length independence; traces"),
+ "C07": ("MC_Core (all 56 pairs verbatim + `relabel`) + MC_Parser c16r / c16pr", "replay through 24 entry points; re-parse histories with the relabelled copy of the accepted token on all protocols"),
+ "C08": ("MC_Terms (term trees, `Inv_Binds`) + MC_CoreObj (`SegOK`)", "term evaluator pinned to 45 vectors; byte-identity / cross-verification; library vs vectors with hex keys; footer segment of re-used core builders"),
+ "C09": ("MC_Shapes (93 834 shapes x 16 presentations, `Inv_NoPanicNoOk`)", "every shape x 48 entry-point calls under catch_unwind; prefixes, Unicode, multi-byte straddles, footer-content fuzz, 1 MiB; hex keys"),
+ "C10": ("MC_Builder counter invariant", "BuilderTrace: nonce identity over long-lived objects (250 builds), footers of 0..1024 bytes and assertions, bit statistics and cross-thread distinctness in the spec"),
+ "C11": ("MC_Parser c11 + c11t (clock) + simulated long histories", "ParserTrace; rendering space at stride 64 in 100-parse objects, wrap-point instants, implementation placeholders"),
+ "C12": ("as C11 (`Inv_NbfRejects`)", "as C11"),
+ "C13": ("MC_Builder c13 (`Inv_ExpDefault`) + c13t (time passes)", "BuilderTrace on all histories (v4) + short ones elsewhere + 2 000 random; creation-time bracket; Apalache induction (thorough)"),
+ "C14": ("MC_Builder c14 (set / remove / extend / extend2)", "BuilderTrace with Unicode / pointer-like / padded / control-character keys, JSON trees, boundary scalars, wrapper-shaped values, time keys with null on the generic builder"),
+ "C15": ("MC_Parser c15 + c15p + c15pc + simulated long histories", "ParserTrace; lossy-comparison value pairs, null projection, pointer-like / padded keys, wrapper-shaped expected values"),
+ "C16": ("MC_Parser c16 + c16p + c16r + c16pr (`Inv_Validators`) + simulated long histories", "ParserTrace with logged validator calls; the library's placeholder claims; validators on exp / nbf themselves (generic)"),
+ "C17": ("MC_Builder c17 (`Inv_DupIff`, `Inv_DupSticky`)", "BuilderTrace on all histories + random; Apalache induction (thorough)"),
+ "C18": ("MC_Claims (30 940 keys, `Inv_Exactly`)", "constructor replay (12 forms) + time strings incl. calendar corners"),
+ "C19": ("MC_Typing (948 tuples)", "one rustc compilation per tuple (continues when only the harness stops compiling)"),
+ "C20": ("MC_Features on FeaturesGen (766 configurations)", "cargo checks + smoke runs (four token shapes per protocol, two P-384 key parities)"),
+}
+rows = ["| id | model / configuration | binding to the code | quick volume (committed evidence) |", "|---|---|---|---|"]
 for i in range(1, 21):
-    p = os.path.join(root, "evidence", "C%02d.json" % i)
-    if not os.path.exists(p):
-        continue
-    e = json.load(open(p))
+    pid = "C%02d" % i
+    e = json.load(open(os.path.join(root, "evidence", pid + ".json")))
     c = e["coverage"]
-    extra = []
-    for k in ("core_object_histories", "builder_histories_executed", "parser_histories_executed", "parser_parses", "concrete_tokens"):
-        if k in c:
-            extra.append("%s=%s" % (k, c[k]))
-    print("C%02d tier=%s states=%s behaviours=%s evaluations=%s wall=%ss %s" % (
-        i, e["tier"], c.get("states"), c.get("traces_validated_against_impl"), c.get("evaluations"), e["wall_s"], " ".join(extra)))
+    vol = []
+    if c.get("states"): vol.append("%s model states" % c["states"])
+    if c.get("traces_validated_against_impl"): vol.append("%s behaviours / cases bound" % c["traces_validated_against_impl"])
+    if c.get("evaluations"): vol.append("%s evaluations" % c["evaluations"])
+    for k, lab in (("core_object_histories", "core-object histories"), ("builder_histories_executed", "builder histories"), ("parser_histories_executed", "parser histories")):
+        if k in c: vol.append("%s %s" % (c[k], lab))
+    vol.append("%.0f s" % e["wall_s"])
+    rows.append("| %s | %s | %s | %s |" % (pid, DESC[pid][0], DESC[pid][1], ", ".join(vol)))
+table = "\n".join(rows)
+p = os.path.join(root, "DESIGN.md")
+s = open(p).read()
+a = s.index("### 0.3b Per property, as built")
+b = s.index("### 0.4 Defects found")
+head = "### 0.3b Per property, as built (quick tier; written by lib/design_table.py from evidence/)\n\n"
+s = s[:a] + head + table + "\n\n" + s[b:]
+open(p, "w").write(s)
+print(table[:400])
